@@ -221,7 +221,156 @@ def pins_rolegraph(out):
     ])
 
 
-SECTIONS = [pins_effector, pins_rolegraph]
+def impl_start(tr, ty):
+    return r"impl(?:<[^>]*>)?\s+" + tr + r"\s+for\s+" + ty
+
+
+def fnre(name, asyn=False):
+    return (r"async\s+" if asyn else r"") + r"fn\s+" + name + r"\b"
+
+
+# table-driven body pins: set -> [(name, file, header regex[, start regex])]
+ENF = "src/enforcer.rs"
+DM = "src/model/default_model.rs"
+IA = "src/internal_api.rs"
+MA = "src/adapter/memory_adapter.rs"
+FA = "src/adapter/file_adapter.rs"
+SA = "src/adapter/string_adapter.rs"
+CE = "src/cached_enforcer.rs"
+BODYSETS = {
+    "enf": [
+        ("private_enforce", ENF, fnre("private_enforce")),
+        ("private_enforce_with_context", ENF, fnre("private_enforce_with_context")),
+        ("register_g_functions", ENF, fnre("register_g_functions")),
+        ("new_raw", ENF, fnre("new_raw", True)),
+        ("new", ENF, fnre("new", True), impl_start("CoreApi", "Enforcer")),
+        ("enforce", ENF, fnre("enforce"), impl_start("CoreApi", "Enforcer")),
+        ("enforce_with_context", ENF, fnre("enforce_with_context"), impl_start("CoreApi", "Enforcer")),
+        ("set_role_manager", ENF, fnre("set_role_manager")),
+        ("set_model", ENF, fnre("set_model", True)),
+        ("set_adapter", ENF, fnre("set_adapter", True)),
+        ("build_role_links", ENF, fnre("build_role_links"), impl_start("CoreApi", "Enforcer")),
+        ("build_incremental_role_links", ENF, fnre("build_incremental_role_links"), impl_start("CoreApi", "Enforcer")),
+        ("load_policy", ENF, fnre("load_policy", True)),
+        ("load_filtered_policy", ENF, fnre("load_filtered_policy", True)),
+        ("save_policy", ENF, fnre("save_policy", True)),
+        ("clear_policy", ENF, fnre("clear_policy", True)),
+        ("enable_auto_notify_watcher", ENF, fnre("enable_auto_notify_watcher")),
+        ("emit", ENF, fnre("emit"), impl_start(r"EventEmitter<Event>", "Enforcer")),
+        ("add_function", ENF, fnre("add_function")),
+    ],
+    "model": [
+        ("add_def", DM, fnre("add_def")),
+        ("load_section", DM, fnre("load_section")),
+        ("load_assertion", DM, fnre("load_assertion")),
+        ("build_role_links", DM, fnre("build_role_links")),
+        ("build_incremental_role_links", DM, fnre("build_incremental_role_links")),
+        ("add_policy", DM, fnre("add_policy")),
+        ("add_policies", DM, fnre("add_policies")),
+        ("get_policy", DM, fnre("get_policy")),
+        ("get_filtered_policy", DM, fnre("get_filtered_policy")),
+        ("has_policy", DM, fnre("has_policy")),
+        ("get_values_for_field_in_policy", DM, fnre("get_values_for_field_in_policy")),
+        ("remove_policy", DM, fnre("remove_policy")),
+        ("remove_policies", DM, fnre("remove_policies")),
+        ("clear_policy", DM, fnre("clear_policy")),
+        ("remove_filtered_policy", DM, fnre("remove_filtered_policy")),
+        ("to_text", DM, fnre("to_text")),
+        ("ast_build_role_links", "src/model/assertion.rs", fnre("build_role_links")),
+        ("ast_build_incremental_role_links", "src/model/assertion.rs", fnre("build_incremental_role_links")),
+    ],
+    "internal": [
+        ("add_policy_internal", IA, fnre("add_policy_internal", True), r"impl<T>\s+InternalApi"),
+        ("add_policies_internal", IA, fnre("add_policies_internal", True), r"impl<T>\s+InternalApi"),
+        ("remove_policy_internal", IA, fnre("remove_policy_internal", True), r"impl<T>\s+InternalApi"),
+        ("remove_policies_internal", IA, fnre("remove_policies_internal", True), r"impl<T>\s+InternalApi"),
+        ("remove_filtered_policy_internal", IA, fnre("remove_filtered_policy_internal", True), r"impl<T>\s+InternalApi"),
+    ],
+    "adapters": [
+        ("mem_%s" % n, MA, fnre(n, a)) for n, a in [
+            ("load_policy", True), ("load_filtered_policy", True), ("save_policy", True), ("clear_policy", True),
+            ("add_policy", True), ("add_policies", True), ("remove_policies", True), ("remove_policy", True),
+            ("remove_filtered_policy", True), ("is_filtered", False)]
+    ] + [
+        ("file_%s" % n, FA, fnre(n, a)) for n, a in [
+            ("load_policy_file", True), ("load_filtered_policy_file", True), ("save_policy_file", True),
+            ("load_policy", True), ("load_filtered_policy", True), ("save_policy", True), ("clear_policy", True),
+            ("add_policy", True), ("add_policies", True), ("remove_policy", True), ("remove_policies", True),
+            ("remove_filtered_policy", True), ("load_policy_line", False), ("load_filtered_policy_line", False)]
+    ] + [
+        ("str_%s" % n, SA, fnre(n, a)) for n, a in [
+            ("load_policy", True), ("load_filtered_policy", True), ("save_policy", True), ("clear_policy", True),
+            ("add_policy", True), ("add_policies", True), ("remove_policy", True), ("remove_policies", True),
+            ("remove_filtered_policy", True), ("load_policy_line", False)]
+    ],
+    "util": [
+        ("escape_assertion", "src/util.rs", fnre("escape_assertion")),
+        ("remove_comment", "src/util.rs", fnre("remove_comment")),
+        ("escape_eval", "src/util.rs", fnre("escape_eval")),
+        ("csv_field", "src/util.rs", fnre("csv_field")),
+        ("parse_csv_line", "src/util.rs", fnre("parse_csv_line")),
+        ("config_parse_buffer", "src/config.rs", fnre("parse_buffer", True)),
+        ("config_add_config", "src/config.rs", fnre("add_config")),
+        ("config_get", "src/config.rs", fnre("get")),
+    ],
+    "fmap": [
+        (n, "src/model/function_map.rs", r"pub\s+" + fnre(n)) for n in
+        ["key_match", "key_get", "key_match2", "key_get2", "key_match3", "key_get3", "key_match4", "key_match5", "regex_match"]
+    ],
+}
+
+
+def pins_bodysets(out):
+    for setname, items in BODYSETS.items():
+        pin_bodies(out, setname, items)
+    # whole-file pins for the small files every decision goes through
+    import hashlib
+    for name, rel in [("fmacros", "src/macros.rs"), ("fmgmtapi", "src/management_api.rs"),
+                      ("frbacapi", "src/rbac_api.rs"), ("femitter", "src/emitter.rs"), ("fconvert", "src/convert.rs"),
+                      ("fcachedenforcer", "src/cached_enforcer.rs"), ("fdefaultcache", "src/cache/default_cache.rs")]:
+        src = read(rel)
+        # the test modules at the end of these files are not part of the pinned behaviour
+        cut = src.find("#[cfg(test)]")
+        if cut >= 0:
+            src = src[:cut]
+        norm = re.sub(r"\s+", " ", strip_rust_comments(src)).strip()
+        h = hashlib.sha256(norm.encode("utf-8")).hexdigest()[:16] if src else "missing"
+        out.append("Definition pin_body_%s_all : text := %s." % (name, T(h)))
+
+
+def pins_literals(out):
+    util = read("src/util.rs")
+    for n in ["ESC_A", "ESC_C", "ESC_E"]:
+        v = regex_literals(util, n)
+        out.append("Definition pin_re_%s : text := %s." % (n, T(v) if v is not None else "pin_missing"))
+    fm = read("src/model/function_map.rs")
+    for n in ["MAT_B", "MAT_P"]:
+        v = regex_literals(fm, n)
+        out.append("Definition pin_re_%s : text := %s." % (n, T(v) if v is not None else "pin_missing"))
+    enf = read("src/enforcer.rs")
+    body = fn_body(enf, fnre("private_enforce")) or ""
+    lits = [rust_unescape(x) for x in re.findall(STR, body)]
+    out.append("Definition pin_enforce_literals : list text := %s." % tlist(lits))
+    body2 = fn_body(enf, fnre("private_enforce_with_context")) or ""
+    lits2 = [rust_unescape(x) for x in re.findall(STR, body2)]
+    out.append("Definition pin_enforce_ctx_literals : list text := %s." % tlist(lits2))
+    ce = read("src/cached_enforcer.rs")
+    m = re.search(r"DefaultCache::new\((\d+)\)", ce)
+    out.append("Definition pin_cache_capacity : nat := %s." % (m.group(1) if m else "0"))
+    # inventory: which CoreApi methods of CachedEnforcer touch the cache
+    start = re.search(impl_start("CoreApi", "CachedEnforcer"), ce)
+    inv = []
+    if start:
+        blk = balanced(ce, ce.find("{", start.end()))
+        for mm in re.finditer(r"(?:async\s+)?fn\s+(\w+)\s*(?:<[^>]*>)?\s*\(", blk or ""):
+            b = fn_body(blk, r"fn\s+" + mm.group(1) + r"\s*(?:<[^>]*>)?\s*\(")
+            if b is not None:
+                inv.append((mm.group(1), "cache.clear()" in b or "private_enforce" in b))
+    out.append("Definition pin_cached_inventory : list (text * bool) := [%s]." %
+               "; ".join("(%s, %s)" % (T(n), "true" if c else "false") for n, c in inv))
+
+
+SECTIONS = [pins_effector, pins_rolegraph, pins_bodysets, pins_literals]
 
 
 def generate():
@@ -251,9 +400,25 @@ def freeze(txt):
            "From CV Require Import Model.Base.", ""]
     for m in re.finditer(r"Definition pin_body_(\w+) : text := (\(T \"[^\"]*\"\))\.", txt):
         out.append("Definition frozen_%s : text := %s." % (m.group(1), m.group(2)))
-    with open(os.path.join(os.path.dirname(os.path.dirname(os.path.abspath(__file__))), "coq", "PinChecks", "Frozen.v"), "w") as f:
+    pcdir = os.path.join(os.path.dirname(os.path.dirname(os.path.abspath(__file__))), "coq", "PinChecks")
+    with open(os.path.join(pcdir, "Frozen.v"), "w") as f:
         f.write("\n".join(out) + "\n")
     print("frozen", len(out) - 4, "body hashes")
+    # one obligation file per body set: PinChecks/PcBody_<set>.v
+    names = re.findall(r"Definition pin_body_(\w+) : text", txt)
+    sets = {}
+    for n in names:
+        sets.setdefault(n.split("_")[0], []).append(n)
+    for st, ns in sets.items():
+        if st in ("eff", "rm"):
+            continue  # hand-written PcEffector.v / PcRoleGraph.v cover these
+        lines = ["(* GENERATED by `tools/pins.py --freeze`: the modelled functions of set `%s` are textually the ones" % st,
+                 "   the model was last aligned with. *)",
+                 "From CV Require Import Model.Base Pins PinChecks.Frozen.", ""]
+        for n in ns:
+            lines.append("Lemma pin_body_%s_ok : pin_body_%s = frozen_%s. Proof. reflexivity. Qed." % (n, n, n))
+        with open(os.path.join(pcdir, "PcBody_%s.v" % st), "w") as f:
+            f.write("\n".join(lines) + "\n")
 
 
 def main():
